@@ -64,8 +64,9 @@ func (wl *WebhookLogger) Log(ctx *fiber.Ctx, err error, body []byte, meta LogMet
 
 	access := "-"
 	reqURI := ctx.OriginalURL()
-	path := strings.Split(ctx.Path(), "/")
-	bucket, object := path[1], strings.Join(path[2:], "/")
+	// a request target that is no path ("*", "host:port", no leading slash)
+	// has no bucket and object to log
+	bucket, object, _ := strings.Cut(strings.TrimPrefix(ctx.Path(), "/"), "/")
 	errorCode := ""
 	httpStatus := 200
 	// a request refused before the authentication middlewares ran (for
@@ -118,7 +119,7 @@ func (wl *WebhookLogger) Log(ctx *fiber.Ctx, err error, body []byte, meta LogMet
 	lf.SignatureVersion = "SigV4"
 	lf.AuthenticationType = "AuthHeader"
 	lf.HostHeader = fmt.Sprintf("s3.%v.amazonaws.com", localString(ctx, "region"))
-	lf.AccessPointARN = fmt.Sprintf("arn:aws:s3:::%v", strings.Join(path, "/"))
+	lf.AccessPointARN = fmt.Sprintf("arn:aws:s3:::%v", ctx.Path())
 	lf.AclRequired = "Yes"
 
 	wl.sendLog(lf)
